@@ -305,7 +305,54 @@ func init() {
 				})
 			}
 		}
-		fmt.Fprintf(&b, "Definition gen_fatal_sites : list (string * string * string) :=\n  %s.\n", c18CoqPairList(fatals))
+		fmt.Fprintf(&b, "Definition gen_fatal_sites : list (string * string * string) :=\n  %s.\n\n", c18CoqPairList(fatals))
+
+		// every call of a filesys.FileSystem method on an fSys receiver made by the localizer and by the
+		// loader code it runs through (the fault points of the model): (file, function, method), source order
+		fsMethods := map[string]bool{"Create": true, "Mkdir": true, "MkdirAll": true, "RemoveAll": true, "Open": true,
+			"IsDir": true, "ReadDir": true, "CleanedAbs": true, "Exists": true, "Glob": true, "ReadFile": true,
+			"WriteFile": true, "Walk": true}
+		var sites [][]string
+		scan := func(path string, onlyFunc string) error {
+			sfset := token.NewFileSet()
+			f, err := parser.ParseFile(sfset, filepath.Join(repo, path), nil, 0)
+			if err != nil {
+				return err
+			}
+			for _, d := range f.Decls {
+				fd, ok := d.(*ast.FuncDecl)
+				if !ok || fd.Body == nil || (onlyFunc != "" && fd.Name.Name != onlyFunc) {
+					continue
+				}
+				ast.Inspect(fd.Body, func(n ast.Node) bool {
+					ce, ok := n.(*ast.CallExpr)
+					if !ok {
+						return true
+					}
+					se, ok := ce.Fun.(*ast.SelectorExpr)
+					if !ok || !fsMethods[se.Sel.Name] {
+						return true
+					}
+					recv := c18ExprString(sfset, se.X)
+					if recv == "fSys" || strings.HasSuffix(recv, ".fSys") {
+						sites = append(sites, []string{filepath.Base(path), fd.Name.Name, se.Sel.Name})
+					}
+					return true
+				})
+			}
+			return nil
+		}
+		for _, fl := range []struct{ path, fn string }{
+			{"api/internal/localizer/locloader.go", ""}, {"api/internal/localizer/util.go", ""},
+			{"api/internal/localizer/localizer.go", ""}, {"api/internal/localizer/builtinplugins.go", ""},
+			{"api/internal/loader/loader.go", ""}, {"api/internal/loader/fileloader.go", ""},
+			{"api/internal/loader/loadrestrictions.go", ""}, {"kyaml/filesys/filesystem.go", "ConfirmDir"},
+		} {
+			if err := scan(fl.path, fl.fn); err != nil {
+				return "", err
+			}
+		}
+		fmt.Fprintf(&b, "Definition gen_fs_call_sites : list (string * string * string) :=\n  %s.\n", c18CoqPairList(sites))
 		return b.String(), nil
 	})
 }
